@@ -21,19 +21,28 @@ theorem verify_ok_v {s : ChainState} {env : Env} {cid : Id} {v : Bool} {u : Unit
 
 theorem getConn_ok {s : ChainState} {ch : Channel} {hop : Id} {conn : ConnEnd} (h : getConn s ch = .ok (hop, conn)) :
     ch.hops.head? = some hop ∧ s.conn.get hop = some conn := by
-  unfold getConn hop0 at h
-  split at h
-  · split at h <;> cases h
-  · rename_i h0 hh
-    split at hh
-    · cases hh
-    · simp only [Except.ok.injEq] at hh; subst hh
-      split at h
-      · cases h
-      · simp only [Except.ok.injEq, Prod.mk.injEq] at h
-        obtain ⟨rfl, rfl⟩ := h
-        rename_i hl _ _ hc
-        exact ⟨by simp [hl], hc⟩
+  unfold getConn at h
+  cases h0 : hop0 ch with
+  | error e => rw [h0] at h; cases h
+  | ok x =>
+    rw [h0] at h
+    simp only at h
+    cases hc : s.conn.get x with
+    | none => rw [hc] at h; cases h
+    | some c0 =>
+      rw [hc] at h
+      simp only [Except.ok.injEq, Prod.mk.injEq] at h
+      obtain ⟨h1, h2⟩ := h
+      subst h1; subst h2
+      refine ⟨?_, hc⟩
+      unfold hop0 at h0
+      cases hl : ch.hops with
+      | nil => rw [hl] at h0; cases h0
+      | cons y ys =>
+        rw [hl] at h0
+        simp only [Except.ok.injEq] at h0
+        subst h0
+        rfl
 
 theorem chanOpenAck_detail {s s' : ChainState} {env : Env} {port chan cpChan : Id} {cpVersion : String} {app : AppV1} {r : String}
     (h : step s ⟨env, .chanOpenAck port chan cpChan cpVersion app⟩ = (s', .ok r)) :
@@ -91,7 +100,7 @@ theorem connOpenAck_detail {s s' : ChainState} {env : Env} {c cpConn : Id} {vers
   oksplit h
   have hver := verify_ok_v ‹verify s env _ env.lc.v1 = Except.ok _›
   simp only [ne_eq, Decidable.not_not] at *
-  exact ⟨_, ‹_›, ‹_›, hver, rfl, rfl⟩
+  refine ⟨_, ‹_›, ‹_›, hver, ?_, ?_⟩ <;> first | rfl | trivial
 
 theorem connOpenConfirm_detail {s s' : ChainState} {env : Env} {c : Id} {r : String}
     (h : step s ⟨env, .connOpenConfirm c⟩ = (s', .ok r)) :
@@ -105,7 +114,7 @@ theorem connOpenConfirm_detail {s s' : ChainState} {env : Env} {c : Id} {r : Str
   oksplit h
   have hver := verify_ok_v ‹verify s env _ env.lc.v1 = Except.ok _›
   simp only [ne_eq, Decidable.not_not] at *
-  exact ⟨_, ‹_›, ‹_›, hver, rfl, rfl⟩
+  refine ⟨_, ‹_›, ‹_›, hver, ?_, ?_⟩ <;> first | rfl | trivial
 
 /-! ### what a positive honest verdict means -/
 
@@ -246,36 +255,38 @@ theorem Agree.me_step {X X' Y : ChainState} {op : Op} {out : Out} (hg : Good X) 
           cases hbody : op.body <;> rw [hbody] at hb <;> simp [Body.opensChan] at hb
           · -- ChanOpenAck
             rename_i port chan cpChan cpVersion app
-            obtain ⟨rfl, rfl⟩ := hb
+            obtain ⟨hb1, hb2⟩ := hb
+            subst hb1; subst hb2; subst hk
             rw [hbody] at h
             obtain ⟨ch, hop, conn, hch, hst, hgc, hco, hv1, hconn, hchan⟩ := chanOpenAck_detail h
             obtain ⟨hh, hcg⟩ := getConn_ok hgc
-            have hexp : expectedChan X (.chanOpenAck p c cpChan cpVersion app) =
-                some ((ch.cpPort, cpChan), ⟨.tryopen, ch.ordering, p, c, [conn.cpConn], cpVersion⟩, conn.cpPrefix == storePrefix) := by
+            have hexp : expectedChan X (.chanOpenAck port chan cpChan cpVersion app) =
+                some ((ch.cpPort, cpChan), ⟨.tryopen, ch.ordering, port, chan, [conn.cpConn], cpVersion⟩, conn.cpPrefix == storePrefix) := by
               simp [expectedChan, hch, hgc]
             have hv1' : honestV1 X Y op.body op.env.lc.v1 = true := hv1
             rw [hbody] at hv1'
             obtain ⟨hy, _⟩ := honest_chan hexp hv1'
-            have hv : v = { ch with state := .opened, version := cpVersion, cpChan := cpChan } := by
-              have := congrArg (fun m => m.get (p, c)) hset
+            have hv : e' = { ch with state := .opened, version := cpVersion, cpChan := cpChan } := by
+              have := congrArg (fun m => m.get (port, chan)) hset
               simp only [hchan, FMap.get_set_self] at this
               exact (Option.some.inj this).symm
             subst hv
             exact ⟨_, hop, conn, hy, by simp, rfl, rfl, rfl, rfl, hh, by rw [hconn]; exact hcg, hco, rfl⟩
           · -- ChanOpenConfirm
             rename_i port chan app
-            obtain ⟨rfl, rfl⟩ := hb
+            obtain ⟨hb1, hb2⟩ := hb
+            subst hb1; subst hb2; subst hk
             rw [hbody] at h
             obtain ⟨ch, hop, conn, hch, hst, hgc, hco, hv1, hconn, hchan⟩ := chanOpenConfirm_detail h
             obtain ⟨hh, hcg⟩ := getConn_ok hgc
-            have hexp : expectedChan X (.chanOpenConfirm p c app) =
-                some ((ch.cpPort, ch.cpChan), ⟨.opened, ch.ordering, p, c, [conn.cpConn], ch.version⟩, conn.cpPrefix == storePrefix) := by
+            have hexp : expectedChan X (.chanOpenConfirm port chan app) =
+                some ((ch.cpPort, ch.cpChan), ⟨.opened, ch.ordering, port, chan, [conn.cpConn], ch.version⟩, conn.cpPrefix == storePrefix) := by
               simp [expectedChan, hch, hgc]
             have hv1' : honestV1 X Y op.body op.env.lc.v1 = true := hv1
             rw [hbody] at hv1'
             obtain ⟨hy, _⟩ := honest_chan hexp hv1'
-            have hv : v = { ch with state := .opened } := by
-              have := congrArg (fun m => m.get (p, c)) hset
+            have hv : e' = { ch with state := .opened } := by
+              have := congrArg (fun m => m.get (port, chan)) hset
               simp only [hchan, FMap.get_set_self] at this
               exact (Option.some.inj this).symm
             subst hv
@@ -295,35 +306,35 @@ theorem Agree.me_step {X X' Y : ChainState} {op : Op} {out : Out} (hg : Good X) 
           cases hbody : op.body <;> rw [hbody] at hb <;> simp [Body.opensConn] at hb
           · -- ConnOpenAck
             rename_i c0 cpConn version
-            subst hb
+            subst hb; subst hk
             rw [hbody] at h hcnone
             obtain ⟨conn, hcg, hst, hv1, _, hconn⟩ := connOpenAck_detail h
-            have hexp : expectedConn X (.connOpenAck c cpConn version) =
-                some (cpConn, ⟨.tryopen, conn.cpClient, conn.client, c, storePrefix, [version], conn.delay⟩, conn.cpPrefix == storePrefix) := by
+            have hexp : expectedConn X (.connOpenAck c0 cpConn version) =
+                some (cpConn, ⟨.tryopen, conn.cpClient, conn.client, c0, storePrefix, [version], conn.delay⟩, conn.cpPrefix == storePrefix) := by
               simp [expectedConn, hcg]
             have hv1' : honestV1 X Y op.body op.env.lc.v1 = true := hv1
             rw [hbody] at hv1'
             obtain ⟨hy, _⟩ := honest_conn hcnone hexp hv1'
-            have hv : v = { conn with state := .opened, versions := [version], cpConn := cpConn } := by
-              have := congrArg (fun m => m.get c) hset
+            have hv : e' = { conn with state := .opened, versions := [version], cpConn := cpConn } := by
+              have := congrArg (fun m => m.get c0) hset
               simp only [hconn, FMap.get_set_self] at this
               exact (Option.some.inj this).symm
             subst hv
             exact ⟨_, version, hy, by simp, rfl, rfl, rfl, rfl, rfl, rfl⟩
           · -- ConnOpenConfirm
             rename_i c0
-            subst hb
+            subst hb; subst hk
             rw [hbody] at h hcnone
             obtain ⟨conn, hcg, hst, hv1, _, hconn⟩ := connOpenConfirm_detail h
-            have hexp : expectedConn X (.connOpenConfirm c) =
-                some (conn.cpConn, ⟨.opened, conn.cpClient, conn.client, c, storePrefix, conn.versions, conn.delay⟩, conn.cpPrefix == storePrefix) := by
+            have hexp : expectedConn X (.connOpenConfirm c0) =
+                some (conn.cpConn, ⟨.opened, conn.cpClient, conn.client, c0, storePrefix, conn.versions, conn.delay⟩, conn.cpPrefix == storePrefix) := by
               simp [expectedConn, hcg]
             have hv1' : honestV1 X Y op.body op.env.lc.v1 = true := hv1
             rw [hbody] at hv1'
             obtain ⟨hy, _⟩ := honest_conn hcnone hexp hv1'
-            obtain ⟨ver, hver⟩ := ha.trySingle c conn hcg hst
-            have hv : v = { conn with state := .opened } := by
-              have := congrArg (fun m => m.get c) hset
+            obtain ⟨ver, hver⟩ := ha.trySingle c0 conn hcg hst
+            have hv : e' = { conn with state := .opened } := by
+              have := congrArg (fun m => m.get c0) hset
               simp only [hconn, FMap.get_set_self] at this
               exact (Option.some.inj this).symm
             subst hv
@@ -341,6 +352,153 @@ theorem Agree.me_step {X X' Y : ChainState} {op : Op} {out : Out} (hg : Good X) 
         · rw [hs'] at h'; cases h'
         · rw [h'] at hs'; cases hs'
 
+/-! ### the moment an end becomes OPEN / a close is confirmed -/
+
+/-- what the counterparty holds at the moment a channel end of X becomes OPEN -/
+def ChanOpenWitness (X Y : ChainState) (body : Body) (p c : Id) (e' : Channel) : Prop :=
+  ∃ b hop conn, Y.chan.get (e'.cpPort, e'.cpChan) = some b ∧ b.ordering = e'.ordering ∧ b.cpPort = p ∧ b.cpChan = c ∧
+    b.version = e'.version ∧ e'.hops.head? = some hop ∧ X.conn.get hop = some conn ∧ conn.state = .opened ∧
+    b.hops = [conn.cpConn] ∧ conn.cpPrefix = storePrefix ∧
+    ((∃ cpChan cpVersion app, body = .chanOpenAck p c cpChan cpVersion app ∧ b.state = .tryopen) ∨
+     (∃ app, body = .chanOpenConfirm p c app ∧ b.state = .opened))
+
+theorem chan_open_step {X X' Y : ChainState} {op : Op} {out : Out} {p c : Id} {e' : Channel}
+    (h : sideStep X Y op = (X', out)) (he' : X'.chan.get (p, c) = some e') (ho' : e'.state = .opened)
+    (hnew : ∀ e, X.chan.get (p, c) = some e → e.state ≠ .opened) : ChanOpenWitness X Y op.body p c e' := by
+  unfold sideStep at h
+  cases hout : out.isOk with
+  | false => rw [step_unchanged h hout] at he'; exact absurd ho' (hnew _ he')
+  | true =>
+    obtain ⟨r, hr⟩ : ∃ r, out = .ok r := by cases out <;> simp [Out.isOk] at hout; exact ⟨_, rfl⟩
+    subst hr
+    obtain ⟨hcs, -⟩ := step_shape h
+    rcases hcs with heq | ⟨key, v, hset, hopen⟩
+    · rw [heq] at he'; exact absurd ho' (hnew _ he')
+    · rw [hset, FMap.get_set] at he'
+      split at he'
+      · rename_i hk
+        have hve := Option.some.inj he'
+        subst hve
+        have hb := hopen ho'
+        rw [← hk] at hb
+        cases hbody : op.body <;> rw [hbody] at hb <;> simp [Body.opensChan] at hb
+        · rename_i port chan cpChan cpVersion app
+          obtain ⟨hb1, hb2⟩ := hb
+          subst hb1; subst hb2; subst hk
+          rw [hbody] at h
+          obtain ⟨ch, hop, conn, hch, hst, hgc, hco, hv1, hconn, hchan⟩ := chanOpenAck_detail h
+          obtain ⟨hh, hcg⟩ := getConn_ok hgc
+          have hexp : expectedChan X (.chanOpenAck port chan cpChan cpVersion app) =
+              some ((ch.cpPort, cpChan), ⟨.tryopen, ch.ordering, port, chan, [conn.cpConn], cpVersion⟩, conn.cpPrefix == storePrefix) := by
+            simp [expectedChan, hch, hgc]
+          have hv1' : honestV1 X Y op.body op.env.lc.v1 = true := hv1
+          rw [hbody] at hv1'
+          obtain ⟨hy, hpfx⟩ := honest_chan hexp hv1'
+          have hv : v = { ch with state := .opened, version := cpVersion, cpChan := cpChan } := by
+            have := congrArg (fun m => m.get (port, chan)) hset
+            simp only [hchan, FMap.get_set_self] at this
+            exact (Option.some.inj this).symm
+          subst hv
+          exact ⟨_, hop, conn, hy, rfl, rfl, rfl, rfl, hh, hcg, hco, rfl, by simpa using hpfx,
+            .inl ⟨_, _, _, rfl, rfl⟩⟩
+        · rename_i port chan app
+          obtain ⟨hb1, hb2⟩ := hb
+          subst hb1; subst hb2; subst hk
+          rw [hbody] at h
+          obtain ⟨ch, hop, conn, hch, hst, hgc, hco, hv1, hconn, hchan⟩ := chanOpenConfirm_detail h
+          obtain ⟨hh, hcg⟩ := getConn_ok hgc
+          have hexp : expectedChan X (.chanOpenConfirm port chan app) =
+              some ((ch.cpPort, ch.cpChan), ⟨.opened, ch.ordering, port, chan, [conn.cpConn], ch.version⟩, conn.cpPrefix == storePrefix) := by
+            simp [expectedChan, hch, hgc]
+          have hv1' : honestV1 X Y op.body op.env.lc.v1 = true := hv1
+          rw [hbody] at hv1'
+          obtain ⟨hy, hpfx⟩ := honest_chan hexp hv1'
+          have hv : v = { ch with state := .opened } := by
+            have := congrArg (fun m => m.get (port, chan)) hset
+            simp only [hchan, FMap.get_set_self] at this
+            exact (Option.some.inj this).symm
+          subst hv
+          exact ⟨_, hop, conn, hy, rfl, rfl, rfl, rfl, hh, hcg, hco, rfl, by simpa using hpfx,
+            .inr ⟨_, rfl, rfl⟩⟩
+      · exact absurd ho' (hnew _ he')
+
+/-- what the counterparty holds at the moment a connection end of X becomes OPEN -/
+def ConnOpenWitness (Y : ChainState) (body : Body) (c : Id) (e' : ConnEnd) : Prop :=
+  ∃ f, Y.conn.get e'.cpConn = some f ∧ f.client = e'.cpClient ∧ f.cpClient = e'.client ∧ f.cpConn = c ∧
+    f.delay = e'.delay ∧ f.versions = e'.versions ∧ f.cpPrefix = storePrefix ∧ e'.cpPrefix = storePrefix ∧
+    ((∃ version, body = .connOpenAck c e'.cpConn version ∧ f.state = .tryopen ∧ e'.versions = [version]) ∨
+     (body = .connOpenConfirm c ∧ f.state = .opened))
+
+theorem conn_open_step {X X' Y : ChainState} {op : Op} {out : Out} {c : Id} {e' : ConnEnd}
+    (h : sideStep X Y op = (X', out)) (he' : X'.conn.get c = some e') (ho' : e'.state = .opened)
+    (hnew : ∀ e, X.conn.get c = some e → e.state ≠ .opened) : ConnOpenWitness Y op.body c e' := by
+  unfold sideStep at h
+  cases hout : out.isOk with
+  | false => rw [step_unchanged h hout] at he'; exact absurd ho' (hnew _ he')
+  | true =>
+    obtain ⟨r, hr⟩ : ∃ r, out = .ok r := by cases out <;> simp [Out.isOk] at hout; exact ⟨_, rfl⟩
+    subst hr
+    obtain ⟨-, hns⟩ := step_shape h
+    rcases hns with heq | ⟨key, v, hset, hopen⟩
+    · rw [heq] at he'; exact absurd ho' (hnew _ he')
+    · rw [hset, FMap.get_set] at he'
+      split at he'
+      · rename_i hk
+        have hve := Option.some.inj he'
+        subst hve
+        have hb := hopen ho'
+        rw [← hk] at hb
+        have hcnone : expectedChan X op.body = none := expectedChan_none_of_conn (by rw [hb]; simp)
+        cases hbody : op.body <;> rw [hbody] at hb <;> simp [Body.opensConn] at hb
+        · rename_i c0 cpConn version
+          subst hb; subst hk
+          rw [hbody] at h hcnone
+          obtain ⟨conn, hcg, hst, hv1, _, hconn⟩ := connOpenAck_detail h
+          have hexp : expectedConn X (.connOpenAck c0 cpConn version) =
+              some (cpConn, ⟨.tryopen, conn.cpClient, conn.client, c0, storePrefix, [version], conn.delay⟩, conn.cpPrefix == storePrefix) := by
+            simp [expectedConn, hcg]
+          have hv1' : honestV1 X Y op.body op.env.lc.v1 = true := hv1
+          rw [hbody] at hv1'
+          obtain ⟨hy, hpfx⟩ := honest_conn hcnone hexp hv1'
+          have hv : v = { conn with state := .opened, versions := [version], cpConn := cpConn } := by
+            have := congrArg (fun m => m.get c0) hset
+            simp only [hconn, FMap.get_set_self] at this
+            exact (Option.some.inj this).symm
+          subst hv
+          exact ⟨_, hy, rfl, rfl, rfl, rfl, rfl, rfl, by simpa using hpfx, .inl ⟨version, rfl, rfl, rfl⟩⟩
+        · rename_i c0
+          subst hb; subst hk
+          rw [hbody] at h hcnone
+          obtain ⟨conn, hcg, hst, hv1, _, hconn⟩ := connOpenConfirm_detail h
+          have hexp : expectedConn X (.connOpenConfirm c0) =
+              some (conn.cpConn, ⟨.opened, conn.cpClient, conn.client, c0, storePrefix, conn.versions, conn.delay⟩, conn.cpPrefix == storePrefix) := by
+            simp [expectedConn, hcg]
+          have hv1' : honestV1 X Y op.body op.env.lc.v1 = true := hv1
+          rw [hbody] at hv1'
+          obtain ⟨hy, hpfx⟩ := honest_conn hcnone hexp hv1'
+          have hv : v = { conn with state := .opened } := by
+            have := congrArg (fun m => m.get c0) hset
+            simp only [hconn, FMap.get_set_self] at this
+            exact (Option.some.inj this).symm
+          subst hv
+          exact ⟨_, hy, rfl, rfl, rfl, rfl, rfl, rfl, by simpa using hpfx, .inr ⟨rfl, rfl⟩⟩
+      · exact absurd ho' (hnew _ he')
+
+theorem close_confirm_step {X X' Y : ChainState} {env : Env} {p c : Id} {app : AppV1} {r : String}
+    (h : sideStep X Y ⟨env, .chanCloseConfirm p c app⟩ = (X', .ok r)) :
+    ∃ ch b hop conn, X.chan.get (p, c) = some ch ∧ Y.chan.get (ch.cpPort, ch.cpChan) = some b ∧ b.state = .closed ∧
+      b.ordering = ch.ordering ∧ b.cpPort = p ∧ b.cpChan = c ∧ b.version = ch.version ∧
+      ch.hops.head? = some hop ∧ X.conn.get hop = some conn ∧ b.hops = [conn.cpConn] := by
+  unfold sideStep at h
+  obtain ⟨ch, hop, conn, hch, hgc, hv1⟩ := chanCloseConfirm_detail h
+  obtain ⟨hh, hcg⟩ := getConn_ok hgc
+  have hexp : expectedChan X (.chanCloseConfirm p c app) =
+      some ((ch.cpPort, ch.cpChan), ⟨.closed, ch.ordering, p, c, [conn.cpConn], ch.version⟩, conn.cpPrefix == storePrefix) := by
+    simp [expectedChan, hch, hgc]
+  have hv1' : honestV1 X Y (.chanCloseConfirm p c app) env.lc.v1 = true := hv1
+  obtain ⟨hy, _⟩ := honest_chan hexp hv1'
+  exact ⟨ch, _, hop, conn, hch, hy, rfl, rfl, rfl, rfl, rfl, hh, hcg, rfl⟩
+
 /-! ### the world invariant -/
 
 structure PInv (w : World) : Prop where
@@ -356,7 +514,7 @@ theorem Agree.init : Agree Chain.init Chain.init := by
     simp only [Chain.init, FMap.get_set, FMap.get_empty] at he
     split at he
     · cases he
-      exact ⟨_, defaultIBCVersion, by simp [Chain.init, FMap.get_set], by simp, rfl, rfl, by assumption, rfl, rfl, rfl⟩
+      exact ⟨_, defaultIBCVersion, by simp [Chain.init, FMap.get_set], by simp, rfl, rfl, by simp_all, rfl, rfl, rfl⟩
     · cases he
   · intro c e he hs
     simp only [Chain.init, FMap.get_set, FMap.get_empty] at he
@@ -389,3 +547,17 @@ theorem pinv_prun {w : World} (h : PInv w) (ops : List (Bool × Op)) : PInv (pru
 theorem pinv_prun_init (ops : List (Bool × Op)) : PInv (prun World.init ops) := pinv_prun PInv.init ops
 
 end IbcVerif.Chain
+
+/-! small concrete two-chain states for the non-vacuity examples -/
+namespace IbcVerif.Chain.Ex
+def connX : ConnEnd := ⟨.opened, "99-verif-0", "99-verif-0", "connection-0", "696263", [defaultIBCVersion], 0⟩
+/-- chain with an INIT channel end over an OPEN connection -/
+def wInit : ChainState := { Chain.init with
+  chan := FMap.empty.set ("mock", "channel-0") ⟨.init, .unordered, "mock", "", ["connection-0"], "v"⟩,
+  conn := Chain.init.conn.set "connection-0" connX, nextChanSeq := 1, nextConnSeq := 1, nextClientSeq := 1 }
+/-- its counterparty holding the matching TRYOPEN end -/
+def wTry : ChainState := { Chain.init with
+  chan := FMap.empty.set ("mock", "channel-0") ⟨.tryopen, .unordered, "mock", "channel-0", ["connection-0"], "v"⟩,
+  conn := Chain.init.conn.set "connection-0" connX, nextChanSeq := 1, nextConnSeq := 1, nextClientSeq := 1 }
+def ackBody : Body := .chanOpenAck "mock" "channel-0" "channel-0" "v" ⟨1, false, .ok, "aa", none⟩
+end IbcVerif.Chain.Ex
